@@ -620,7 +620,6 @@ pub fn run(a: &Args) {
     scn::silence_panics();
     let progs = std::fs::read_to_string(a.str("programs", "programs.ndjson")).unwrap();
     let mut out = Out::create(&a.str("out", "trace.ndjson"));
-    crate::util::watch::start(format!("{}.hang", a.str("out", "trace.ndjson")));
     let mut n = 0;
     for line in progs.lines().filter(|l| !l.trim().is_empty()) {
         let prog: Value = serde_json::from_str(line).unwrap();
